@@ -51,9 +51,11 @@ class Spec:
 
 def core_q(name, defines, L=12, budget=300, tiers=('quick', 'thorough'), unwind=None, extra_defs=(), desc=''):
     d = ['L=%d' % L, 'VF_FREE_NOOP', 'VF_CAP=%d' % (L + 8)] + list(defines) + list(extra_defs)
-    return Query(name, 'core_verify.c', CORE_UNITS, defines=d, unwind=unwind or (L + 3), checks='verdict',
-                 budget=budget, tiers=tiers, desc=desc,
+    q = Query(name, 'core_verify.c', CORE_UNITS, defines=d, unwind=unwind or (L + 3), checks='verdict',
+                 budget=budget, tiers=tiers, desc=desc, mem_gb=14,
                  bounds={'L': L, 'VJ_MAXM': 4, 'VJ_SLEN': 8, 'PV_MACLEN': 3, 'unwind': unwind or (L + 3)})
+    q.mem_expect = 3        # typical 1.2-2.6 GB; the cap leaves room for a modified tree
+    return q
 
 
 BUILDER_UNITS = ['libjwt/jwt-builder.c', 'libjwt/jwt-encode.c', 'libjwt/jwt.c', 'libjwt/jwt-setget.c',
@@ -67,9 +69,11 @@ BUILDER_FUNCS = ['jwt_builder_new', 'jwt_builder_setkey', 'jwt_builder_setcb', '
 
 def builder_q(name, defines, budget=600, tiers=('quick', 'thorough')):
     d = ['VF_FREE_NOOP', 'VF_CAP=24', 'VJ_MAXM=5', 'VJ_DUMPLEN=3', 'PV_COPY_INPUT'] + list(defines)
-    return Query(name, 'core_builder.c', BUILDER_UNITS, defines=d, unwind=26, checks='verdict', budget=budget, tiers=tiers,
+    q = Query(name, 'core_builder.c', BUILDER_UNITS, defines=d, unwind=26, checks='verdict', budget=budget, tiers=tiers, mem_gb=14,
                  bounds={'VJ_MAXM': 5, 'VJ_DUMPLEN': 3, 'PV_MACLEN': 3, 'config history': 'enable_iat?, time_offset(nbf)?, '
                          'time_offset(exp)?, header typ?, header alg?, claim iat?, claim exp?, setkey, setcb', 'clock': '[0,2^61]'})
+    q.mem_expect = 3
+    return q
 
 
 GNUTLS_UNITS = ['libjwt/gnutls/sign-verify.c', 'libjwt/jwt-memory.c']
@@ -159,6 +163,7 @@ class C02(Spec):
     functions = CORE_FUNCS
     def queries(self, tier, bld):
         return [core_q('C02.core.L12', ['PROP_C02', 'PROP_C02_SETKEY'], L=12),
+                core_q('C02.core.L16', ['PROP_C02', 'PROP_C02_SETKEY'], L=16, budget=1800, tiers=('thorough',)),
                 builder_q('C02.builder', ['PROP_C02']),
                 ossl_q('C02.ossl.verify.family', ['SIDE_VERIFY', 'NOT_ES']),
                 ossl_q('C02.ossl.verify.family.ES256', ['SIDE_VERIFY', 'ONLY_ALG=JWT_ALG_ES256'], budget=900),
@@ -169,6 +174,7 @@ class C03(Spec):
     functions = CORE_FUNCS
     def queries(self, tier, bld):
         return [core_q('C03.core.L12', ['PROP_C03'], L=12),
+                core_q('C03.core.L16', ['PROP_C03'], L=16, budget=1800, tiers=('thorough',)),
                 builder_q('C03.builder', ['PROP_C03'])]
 
 
@@ -182,7 +188,8 @@ class C06(Spec):
         return [selftest.lowering_validation(bld)]
 
     def queries(self, tier, bld):
-        qs = [core_q('C06.verdict.L12', ['PROP_C06'], L=12)]
+        qs = [core_q('C06.verdict.L12', ['PROP_C06'], L=12),
+              core_q('C06.verdict.L16', ['PROP_C06'], L=16, budget=1800, tiers=('thorough',))]
         # memory safety + leak balance of the whole verify path, exact (end-aligned) allocator
         q = core_q('C06.core.mem.L8', ['PROP_C06_MEM', 'VF_EXACT_END', 'VJ_CHECK_DEAD', 'PV_MACLEN=1', 'NO_CB'], L=8, budget=900, unwind=14)
         q.checks = 'memsafe-noconv'
@@ -202,6 +209,7 @@ class C14(Spec):
     functions = CORE_FUNCS
     def queries(self, tier, bld):
         return [core_q('C14.verify.L12', ['PROP_C14', 'DIRTY_PRESTATE'], L=12),
+                core_q('C14.verify.L16', ['PROP_C14', 'DIRTY_PRESTATE'], L=16, budget=1800, tiers=('thorough',)),
                 builder_q('C14.builder', ['PROP_C14', 'DIRTY_PRESTATE'])]
 
 
@@ -216,6 +224,14 @@ class C04(Spec):
             qs.append(core_q('C04.claims.K3.L12', d + ['KOPS=3'], L=12, budget=1800))
         for q in qs:
             q.bounds.update({'VJ_MAXM': 5, 'KOPS': 2, 'CLEN': 3, 'clock': '[0,2^62]', 'leeway': '[-2^40,2^40]'})
+        # configuration bookkeeping by one-step induction (histories of any length)
+        for op, nm in enumerate(('time_leeway', 'claim_set', 'claim_del')):
+            q = Query('C04.config.step.%s' % nm, 'cfgstep.c', CORE_UNITS, defines=['VF_FREE_NOOP', 'VJ_MAXM=4', 'ONLY_OP=%d' % op],
+                      unwind=12, checks='verdict', budget=600, mem_gb=14,
+                      bounds={'pre-state': 'arbitrary mask of the five checks, arbitrary leeways, expected strings <= 2 ASCII bytes',
+                              'operations': '1 (inductive step)', 'secs': 'any long'})
+            q.mem_expect = 3
+            qs.append(q)
         return qs
 
 
@@ -514,6 +530,8 @@ class C05(Spec):
                 q.budget = 3000
         qs.append(ossl_q('C05.ossl.sign', ['SIDE_SIGN']))
         qs.append(ossl_q('C05.ossl.verify.pss', ['SIDE_VERIFY', 'NOT_ES']))
+        # delivery half: what generate serialises (flag word of the printer, alg/typ/iat/nbf/exp members)
+        qs.append(builder_q('C05.builder.serialise', ['PROP_C05']))
         return qs
 
 
